@@ -54,13 +54,18 @@ func depsFamily(c map[string]json.RawMessage) (interface{}, error) {
 		if boolean(c, "cli") {
 			// the dependency sub-command itself in a fresh process: the imports as Java sources in the tree, `deps -p dir`,
 			// the printed table read back
-			for _, n := range nodes {
+			for k, n := range nodes {
+				// (with "testSources" the last class is a test: a dependency imported only from tests is imported)
+				root, name := "main", n.NodeName
+				if boolean(c, "testSources") && k == len(nodes)-1 {
+					root, name = "test", n.NodeName+"Test"
+				}
 				src := "package " + n.Package + ";\n\n"
 				for _, i := range n.Imports {
 					src += "import " + i.Source + ";\n"
 				}
-				src += "\npublic class " + n.NodeName + " {\n}\n"
-				p := filepath.Join(dir, "src", "main", "java", n.Package, n.NodeName+".java")
+				src += "\npublic class " + name + " {\n}\n"
+				p := filepath.Join(dir, "src", root, "java", n.Package, name+".java")
 				_ = os.MkdirAll(filepath.Dir(p), 0755)
 				if err := os.WriteFile(p, []byte(src), 0644); err != nil {
 					return nil, err
